@@ -109,8 +109,8 @@ CHECKS = {
             "identities, optimised == reference, injection o prolongation = I, non-negative weights, row sums and linear "
             "reproduction (row by row, local angles) are checked; rows failing exactly as the recorded weight defect F2 "
             "predicts are reported as KNOWN-FINDING, any other failing row is a violation.",
-            "Trusted: numpy. The thorough tier extracts two pairs above 10 000 fine nodes (65x160, 41x256) with 3 threads; the quick tier "
-            "reaches those branches through C11/C12 only.",
+            "Trusted: numpy. Pairs above 10 000 fine nodes are extracted with 3 threads: 41x256 (irregular angles) in both tiers, "
+            "65x160 in the thorough tier.",
             "DESIGN.md 5/C08"),
     "C09": ("opalg+histbfs", "model_checking",
             "exhaustive basis enumeration of the FMG interpolation + enumeration of start-up configurations x object histories",
